@@ -161,7 +161,7 @@ def rule_b(ctx, init, tabs):
         outer, inner, elt, st = t
         i, j = norm(outer.generators[0].target), norm(inner.generators[0].target)
         ok = norm(elt) == f"self.base.subregion(self.rois[{i}][{j}])"
-    ctx.ob(R, init.qname, "patches[i][j] = base.subregion(rois[i][j])", ok, norm(t[2]) if t else "", init.node)
+    ctx.ob(R, init.qname, "patches[i][j] = base.subregion(rois[i][j])", ok, norm(t[2]) if t else "", init.node, evidence=False)
     n0 = len(ctx.obs)
     c02.rule_ab(ctx)
     for o in ctx.obs[n0:]:
@@ -241,7 +241,7 @@ def rule_c(ctx, init, tabs):
             desc.append(f"corner {c}: voxel multipliers {mult[0]!r},{mult[1]!r}; Cartesian ({gx!r}, {gy!r}) expected ({want_x!r}, {want_y!r})")
     ctx.ob(R, init.qname, "voxel and Cartesian corner tables list the same corners in the same order (rows <-> -y, columns <-> +x per the axis table)", ok, "; ".join(desc)[:300], st_gc)
     add_origin = any(isinstance(b, ast.BinOp) and isinstance(b.op, ast.Add) and "self.base.origin" in norm(b.right) for b in ast.walk(tabs["global_corners_cartesian"][2]))
-    ctx.ob(R, init.qname, "Cartesian corners are offset by the base image's origin", add_origin, "", st_gc)
+    ctx.ob(R, init.qname, "Cartesian corners are offset by the base image's origin", add_origin, "", st_gc, evidence=False)
     # centres
     outer, inner, elt, st = tabs["global_centers_cartesian"]
     ci, cj = norm(outer.generators[0].target), norm(inner.generators[0].target)
@@ -253,7 +253,7 @@ def rule_c(ctx, init, tabs):
         half = Poly.const(1) / Poly.const(2)
         ok = cx == g0x + m1 * half * (1 if not xrow[1] else -1) if xrow[0] == 1 else False
         ok = ok and cy == g0y + m0 * half * (-1 if yrow[1] else 1)
-    ctx.ob(R, init.qname, "Cartesian centres = Cartesian corner 0 + half a patch along +x and -y", ok and "self.base.origin" in norm(elt), norm(elt)[:120], st)
+    ctx.ob(R, init.qname, "Cartesian centres = Cartesian corner 0 + half a patch along +x and -y", ok and "self.base.origin" in norm(elt), norm(elt)[:120], st, evidence=False)
     outer, inner, elt, st = tabs["global_centers_voxels"]
     vi, vj = norm(outer.generators[0].target), norm(inner.generators[0].target)
     ctx.ob(R, init.qname, "voxel centres are the voxels of the Cartesian centres in the base coordinate system", norm(elt) == f"self.base.coordinatesystem.voxel(self.global_centers_cartesian[{vi}, {vj}])", norm(elt), st)
